@@ -188,9 +188,32 @@ def run(ctx):
     cfg = fw.write_cfg(ctx.path("Gen_C06.cfg"), invariants=["Emit"], constants={"Seed": ctx.seed % 1000, "Stride": stride})
     cases, ncases = ctx.gen("gen", SPECDIR, "Gen_C06.tla", cfg, timeout=1500)
     wit = witnesses(ctx)
+    # very long discarded parts at one half +- one unit (binary floats to integers and to f32 / f64): the rounding routines
+    # pre-decide "more / less than half" from f32 estimates of log2, which are coarse at thousands of bits
+    def wire(v):
+        m = abs(v)
+        return {"s": 1 if v < 0 else 0, "m": list(m.to_bytes((m.bit_length() + 7) // 8, "little"))}
+    longtail = []
+    for k, tail in enumerate(ctx.pick((7000, 12000), (7000, 12000, 20000, 40000))):
+        half = 1 << (tail - 1)
+        for d in (-1, 0, 1):
+            for sgn in (1, -1):
+                v = sgn * ((3 << tail) + half + d)                       # 3 + 1/2 + d * 2^-tail
+                f = {"sig": wire(v), "exp": -tail, "inf": 0, "prec": 0}
+                for mode in ("HalfEven", "HalfAway"):
+                    longtail.append({"op": "to_int", "x": {"t": "F", "base": 2, "f": f}, "rule": "mode", "mode": mode, "src": "gen"})
+                w = sgn * ((((1 << 52) + 5) << tail) + half + d)         # a 53-bit significand, then the tail
+                g = {"sig": wire(w), "exp": -tail - 40, "inf": 0, "prec": 0}
+                longtail.append({"op": "to_f", "x": {"t": "F", "base": 2, "f": g}, "ft": "f64", "mode": "HalfEven", "src": "gen"})
+                w32 = sgn * ((((1 << 23) + 5) << tail) + half + d)
+                g32 = {"sig": wire(w32), "exp": -tail - 10, "inf": 0, "prec": 0}
+                longtail.append({"op": "to_f", "x": {"t": "FR", "base": 2, "f": g32}, "ft": "f32", "mode": "HalfEven", "src": "gen"})
+    ctx.scope["long_tail_cases"] = len(longtail)
     with open(cases, "a") as f:
         for _, w in wit:
             f.write(json.dumps(w) + "\n")
+        for c in longtail:
+            f.write(json.dumps(c) + "\n")
     tr1 = ctx.drive(drive, ["--cases", cases, "--n", "0"], "trace-gen.ndjson")
     ctx.monitor("mon-gen", SPECDIR, "Trace_C06.tla", "Trace_C06.cfg", tr1, nontrivial=nontrivial, cover=cover, timeout=3000)
     # impl -> spec: seeded random sources through every From/TryFrom pair and every lossy conversion
